@@ -65,9 +65,11 @@ LabelOk(ls, f, w) ==
       [] ls = "space" -> f \in {"nexus", "nexml", "fasta"} \/ (f = "phylip" /\ (w.strict \/ w.multispace))
       [] ls \in {"punct", "xml"} -> f \in {"nexus", "nexml"}
 SrcFmt(route) == CASE route = "parsed_nexus" -> "nexus" [] route = "parsed_phylip" -> "phylip"
-                   [] route = "parsed_fasta" -> "fasta" [] route = "parsed_nexml" -> "nexml" [] OTHER -> ""
+                   [] route = "parsed_fasta" -> "fasta" [] route \in {"parsed_nexml", "typed_self_concatenated", "typed_self_extended"} -> "nexml"
+                   [] OTHER -> ""
 RouteVariants(t) ==
-    {[route |-> r, src |-> D0] : r \in {"from_dict", "concatenated", "exported"} \cup (IF Supports("nexml", t) THEN {"exported_typed"} ELSE {})}
+    {[route |-> r, src |-> D0] : r \in {"from_dict", "concatenated", "exported"}
+                                     \cup (IF Supports("nexml", t) THEN {"exported_typed", "typed_self_concatenated", "typed_self_extended"} ELSE {})}
     \cup UNION {{[route |-> ParsedRoute(f), src |-> l] : l \in SourceLayouts(f)} : f \in {g \in Formats : Supports(g, t)}}
 
 \* the verdicts of a matrix case are computed once, when the case is generated (field res), so that every
@@ -77,7 +79,8 @@ PairLayout(g, ls) == IF g = "phylip" /\ ls = "space" THEN Lay(FALSE, 0, FALSE, 0
 Verdicts(m, ls, route, src, f, w) ==
     LET parsed == SrcFmt(route) # ""
         sr == ReadF(SrcFmt(route), m.type, WriteF(SrcFmt(route), m, src, TRUE), RO(src))
-        b == IF parsed THEN AsMatrix(sr) ELSE m                       \* the matrix built by the route
+        b == IF SelfCombined(route) THEN Doubled(AsMatrix(sr))           \* the matrix built by the route
+             ELSE IF parsed THEN AsMatrix(sr) ELSE m
         r1 == ReadF(f, m.type, WriteF(f, b, w, HasColDefs(route)), RO(w))
         b1 == AsMatrix(r1)
     IN [source |-> ~parsed \/ Same(sr, SrcFmt(route), src.strict, m),
@@ -112,9 +115,12 @@ NextDataSet ==
     /\ c.kind = "seedds"
     /\ LET nns == c.nns  f == c.f IN
        \E titles \in [1..nns -> TitlePool] : \E nc \in 1..MaxComps :
-       \E comps \in [1..nc -> [kind : {"CHARACTERS", "TREES"}, ns : 1..nns, title : {<<>>, <<"x">>}]] :
+       \E comps \in [1..nc -> [kind : {"CHARACTERS", "TREES"}, ns : 1..nns, title : {<<>>, <<"x">>}, subsets : BOOLEAN, neg : BOOLEAN]] :
        \E setting \in (IF f = "nexus" THEN {"None", "False", "True"} ELSE {"None"}) :
         /\ \A k \in 2..nc : comps[k].title = <<>>
+        /\ \A k \in 1..nc : comps[k].kind = "TREES" => ~comps[k].subsets /\ ~comps[k].neg
+        /\ \A k \in 1..nc : comps[k].subsets => comps[k].title = <<>> /\ ~comps[k].neg     \* a concatenated (discrete) alignment
+        /\ \A k \in 1..nc : comps[k].neg => \E j \in 1..(k - 1) : comps[j].subsets            \* negative values only matter after a SETS block
         /\ c' = [kind |-> "dataset", f |-> f, setting |-> setting,
               ds |-> [nss |-> [i \in 1..nns |-> [title |-> titles[i], labels |-> NsLabels(i)]], comps |-> comps]]
 
